@@ -4,6 +4,8 @@ from .common import *
 from .pool import run_batch, plan
 from .report import Report
 from . import hang
+from . import c09
+from . import c07
 
 LEVELS = {}
 
@@ -233,7 +235,56 @@ def run_C06(tier, seed):
     return rep.finish()
 
 
-PROPS = {"C04": run_C04, "C05": run_C05, "C06": run_C06, "C01": run_C01, "C02": run_C02, "C03": run_C03, "C10": run_C10, "C11": run_C11, "C12": run_C12, "C13": run_C13,
+def run_C08(tier, seed):
+    rep = Report("C08", tier, seed, "exploration",
+                 "case = (insertion sequence, worker count, delay seed). Sequences (3 quick / 20 thorough) of 10..30 blocks: 4095 tiny items "
+                 "(closes a cluster through the blob limit, compressed or raw), runs of 2..6 contents of 2.2 MiB (close compressed clusters "
+                 "through the size limit and fill the queue), runs of raw contents; 25..80 clusters each. Worker counts {1,2,4,15} quick / "
+                 "1..15 thorough through the CPU affinity seen by available_parallelism; 3 / 8 delay seeds rotating over the profiles "
+                 "uniform heavy-tailed 0-20 ms per (callback, cluster), one slow worker, slow writer, slow workers with a fast main thread. "
+                 "Monitors: offline checker over the Progress event log (each cluster opened, handled and written exactly once in that order, "
+                 "kinds consistent, counts = cluster table); read-back of every address; pack check(); independent decoder (cluster table vs "
+                 "tails, layout rules); identical logical fingerprint for all schedules of one sequence; termination (watchdog + hang "
+                 "confirmation). Non-trivial = written order != id order (inversions > 0) or queue pressure (compressed clusters in flight >= "
+                 "2 x workers + 2). Distinct = hash(first 64 ids of the written order, worker count, sequence).",
+                 ["schedules are sampled by delays, not enumerated"])
+    b = B.build("release")
+    total = plan(b, "C08", tier)
+    cases, errors = run_batch(b, "C08", tier, seed, "release", total, timeout=240, extra_args=["--case-timeout", "120"])
+
+    def confirm(c):
+        d = c.desc or {}
+        return hang.confirm(b, "C08", c, ("C08", d.get("seq"), d.get("workers"), d.get("delay_seed")), budget=150, extra_sig={"step": "create"})
+
+    rep.add_cases(cases, hang_confirm=confirm)
+    rep.errors += errors
+    # cross-schedule comparison: one logical fingerprint per sequence
+    by_seq = {}
+    for m in rep.tally["sets"].get("logical", set()):
+        seq, h = m.split(":")
+        by_seq.setdefault(seq, set()).add(h)
+    for seq, hs in sorted(by_seq.items()):
+        rep.obs_inc("sequences_compared_across_schedules")
+        if len(hs) > 1:
+            rep.add_violation({"kind": "schedule-dependent-content"}, f"C08: sequence {seq} yields {len(hs)} different logical contents depending on the schedule",
+                              {"hashes": sorted(hs)}, {"seq": seq}, "release")
+    inv = rep.tally["n"].get("inversions", 0)
+    if inv == 0 and rep.evaluations > 0 and not rep.violations:
+        rep.inconclusive += rep.evaluations
+        rep.inconclusive_notes.append("no reordering was observed in any run: the run set proves nothing about order independence")
+        rep.evaluations = 0
+    return rep.finish()
+
+
+def run_C09(tier, seed):
+    return c09.run(tier, seed)
+
+
+def run_C07(tier, seed):
+    return c07.run(tier, seed)
+
+
+PROPS = {"C07": run_C07, "C08": run_C08, "C09": run_C09, "C04": run_C04, "C05": run_C05, "C06": run_C06, "C01": run_C01, "C02": run_C02, "C03": run_C03, "C10": run_C10, "C11": run_C11, "C12": run_C12, "C13": run_C13,
          "C14": run_C14, "C15": run_C15, "C16": run_C16}
 
 
